@@ -177,11 +177,13 @@ def legacy_p_begin_end(x: int, which: bool) -> str:
 
 
 # --- DFXP writers, whole write(): one p per caption in order; only CONSECUTIVE captions with identical times may merge ---
-def dfxp_cue_structure(w: int, k0: bool, k1: bool, k2: bool, k3: bool) -> str:
+def dfxp_cue_structure(w: int, k0: bool, k1: bool, k2: bool, k3: bool, prewrite: bool) -> str:
     """
     pre: 0 <= w <= 2
     post: _ == ""
     """
+    # prewrite: the same caption set has been written once before by the single-position writer (which merges
+    # concurrent captions - in its own copy): the cues of this write are still one per caption of the set
     import pycaption.dfxp.base as db
     import pycaption.dfxp.extras as dx
     from pycaption.dfxp import DFXPWriter
@@ -201,6 +203,8 @@ def dfxp_cue_structure(w: int, k0: bool, k1: bool, k2: bool, k3: bool) -> str:
             holder.append(s)
             return s
         db.BeautifulSoup = dx.BeautifulSoup = factory
+        if prewrite:
+            SinglePositioningDFXPWriter().write(cs)
         return wr.write(cs)
     _with_fake(run)
     ps = holder[-1].find("body").find_all("p")
